@@ -14,7 +14,9 @@ EXPLANATION = (
     "sink; the member that is invoked is the second group of the path match, the keyword arguments are the parsed query "
     "parameters from which exactly $key is removed whenever a key is configured; one invocation per request, none for $meta; "
     "status 500 on the exception flag and in the catch-all, 200 otherwise; the key is compared as UTF-8 bytes, header before "
-    "$key. Not decided: HTTP parsing by wsgiref/urllib, what the operator's regex matches, JSON content."
+    "$key."
+    "Also decided: the requested name cannot resolve to the proxy's own attributes; the cached name server proxy is validated; blank query values are kept; the reply body is bytes; the raw wire response is requested and honoured. "
+    "Not decided: HTTP parsing by wsgiref/urllib, what the operator's regex matches, JSON content."
 )
 
 GW = "Pyro5.utils.httpgateway"
@@ -407,4 +409,15 @@ def run(ctx, R, tier):
             inv.loc(raw_rets[0].ast) if raw_rets else inv.loc(),
             ("the gateway no longer asks for the raw reply before the invocation" if not ok_set else
              "_pyroInvoke no longer returns the received message as is when _pyroRawWireResponse is set: the gateway reads .flags/.data of whatever comes back"))
+
+    # exactly the query parameters: blank values are kept; and the body handed to the WSGI server is bytes (the payload of a reply with annotations is a memoryview)
+    pq = [c for c in walk_no_nested(app.node) if isinstance(c, ast.Call) and unparse(c.func).endswith("parse_qs")]
+    okq = len(pq) == 1 and any(k.arg == "keep_blank_values" and isinstance(k.value, ast.Constant) and k.value.value is True for k in pq[0].keywords)
+    R.check(okq, "C20-R3", "parameters|blank-values-kept", "the query string is parsed with keep_blank_values=True", app.loc(pq[0]) if pq else app.loc(),
+            "parse_qs drops parameters with an empty value: /pyro/obj/m?x= invokes m() without x instead of m(x='')")
+    bodies = [r for r in walk_no_nested(f.node) if isinstance(r, ast.Return) and isinstance(r.value, ast.List) and any(
+        isinstance(x, ast.Attribute) and x.attr == "data" for e_ in r.value.elts for x in ast.walk(e_))]
+    okb = bool(bodies) and all(isinstance(e_, ast.Call) and isinstance(e_.func, ast.Name) and e_.func.id == "bytes" for r in bodies for e_ in r.value.elts)
+    R.check(okb, "C20-R3", "reply-body|bytes", "the reply payload is handed to the WSGI server as bytes(...)", f.loc(bodies[0]) if bodies else f.loc(),
+            "the received payload object is returned as is: for a reply that carries annotations it is a memoryview, which WSGI servers refuse (500 instead of the call's result)")
 
